@@ -324,6 +324,7 @@ struct HIo : Harness {
               });
               if (fd_ok) for (size_t i = 0; ok && i < p1.out.size(); i++) for (size_t j = 0; j < p1.out[i].size(); j++) {
                 double tol = 2e-6 * bound[i][j] + 1e-12 * pmax;
+                if (p1.out[i][j] != p1.out[i][j] || bound[i][j] != bound[i][j] || std::isinf(bound[i][j])) { o.counters["skipped.prediction_not_finite_in_saved_model"]++; continue; }  // e.g. a null component: the saved model itself predicts NaN there
                 if (!(fabs(p1.out[i][j] - p2.out[i][j]) <= tol)) { ok = false; char m[300]; snprintf(m, sizeof m, "%s: read-back model predicts %.15g where the saved one predicts %.15g (allowed %.3g)", kind_name[saved.kind], p2.out[i][j], p1.out[i][j], tol); o.fail("prediction-differs", m); break; }
               }
             } else o.fail("prediction-differs", std::string(kind_name[saved.kind]) + ": prediction through the read-back model has another shape");
